@@ -132,7 +132,8 @@ func (*c17) Exec(op string) string {
 			return "sockerr"
 		}
 		return hx.Hex(buf[:n])
-	case len(f) == 2 && f[0] == "c17.pipe":
+	case len(f) == 2 && (f[0] == "c17.pipe" || f[0] == "c17.burst"):
+		// c17.burst <types>  the same child writes all its requests with one write: one read of the parent delivers all frames
 		// c17.pipe <types>   one child that does not wait for the replies: it sends its next request 20 ms after the previous one, while a
 		// requested drain takes 90 ms (logged at its beginning and its end)  -> acts=<actions in order> replies=<reply types in arrival order>
 		c17seq++
@@ -178,16 +179,20 @@ func (*c17) Exec(op string) string {
 				}
 			}
 		}()
-		for i, t := range types {
-			if i > 0 {
-				// (a stream socket: two unread frames would be read as one — at most one request waits behind a drain)
-				if i >= 2 && types[i-2] == 5 {
-					time.Sleep(110 * time.Millisecond)
-				} else {
+		if f[0] == "c17.burst" {
+			var all []byte
+			for _, t := range types {
+				all = append(all, byte(t), 0, 2, '{', '}')
+			}
+			conn.Write(all)
+		} else {
+			for i, t := range types {
+				if i > 0 {
+					// several requests may pile up behind a slow drain: the control socket is a stream, one read delivers them all
 					time.Sleep(20 * time.Millisecond)
 				}
+				conn.Write(append([]byte{byte(t), 0, 2}, '{', '}'))
 			}
-			conn.Write(append([]byte{byte(t), 0, 2}, '{', '}'))
 		}
 		<-done
 		time.Sleep(20 * time.Millisecond)
@@ -358,6 +363,10 @@ func (*c17) Gen(r *hx.Run) {
 			ts = append(ts, []string{"1", "3", "5", "5", "9", "200"}[rng.Intn(6)])
 		}
 		r.Do("c17.pipe "+strings.Join(ts, ","), true, "pipe")
+		r.Do("c17.burst "+strings.Join(ts, ","), true, "burst")
+	}
+	for _, s := range []string{"5,1", "1,3,5", "5,200", "1,200,3"} {
+		r.Do("c17.burst "+s, true, "burst")
 	}
 	// the canonical hand-over
 	r.Do("c17.seq 1,5,7", true, "seq-canonical")
